@@ -719,3 +719,57 @@ def arity(ctx):
         for c in fam.candidates:
             c.replay = {'accepted_out_of_range': hits[:4], 'functions_tried': len(table)}
             c.status = 'reproduced' if hits else 'unit'
+
+
+# ---------------------------------------------------------------- the name of a selection is the text after `=`
+def selection_name(ctx):
+    """Selection::from_str on `.a=` followed by 1..3 free bytes that are well-formed UTF-8 and not blanks: accepted, and the column
+    name is exactly those bytes (the header row of csv / text lists the names as given, whatever script they are written in)"""
+    from .scen_parser import utf8_valid
+    run = ctx.run
+    fam = run.family('expr.selection_name', 'the name given after `=` in --select is kept byte for byte (every code point, not only ASCII)')
+    run.bounds['selection name'] = '`.a=` + 1..3 free bytes forming well-formed UTF-8, no blanks'
+    body_rx = OPTION_READERS['Selection'][0]
+    for n in (1, 2, 3):
+        tail = [z3.BitVec(f'n{i}', 8) for i in range(n)]
+        text = [z3.BitVecVal(x, 8) for x in b'.a='] + tail
+        fin = []
+        sc = expr_scenario(ctx, text, fin); ex = sc.ex
+        st = State(); src = seqobj(st, 'String', [BV(t) for t in text])
+        st.pc.append(utf8_valid(tail))
+        for t in tail: st.pc.append(z3.And(t != 0x20, t != 9, t != 10, t != 13, t != 0))
+        F = ex.find(body_rx)
+        KPANICS.clear(); ex.new_frame(st, F, [slot(st, src, 'src*')])
+        for d in ex.run(st) + sc.extra + list(KPANICS):
+            if d.status == 'infeasible': continue
+            run.paths += 1; fam.obligations += 1; fam.paths += 1; fam.witnesses += 1
+            hav = (d.havoc or [None])[0]; why = None; m = None
+            if d.status != 'returned': why = f'{d.status} {d.notes[-1:]}'; m = ex.valid(d, z3.BoolVal(False))[1]
+            else:
+                r = obj(d, d.ret); rd = cval(ex.discr(d, r).t)
+                if rd != 0: why = 'the selection is rejected'; m = ex.valid(d, z3.BoolVal(False))[1]
+                else:
+                    try:
+                        sel = obj(d, d.heap[r.oid][('f', 'Ok', 0)]); SEL = ctx.structs['Selection']
+                        nm = obj(d, d.heap[sel.oid][('f', None, SEL.index('name'))])
+                        while 'model' not in d.heap[nm.oid] and 'inner' in d.heap[nm.oid]: nm = obj(d, d.heap[nm.oid]['inner'])
+                        if 'model' not in d.heap[nm.oid] and ('f', None, 0) in d.heap[nm.oid]: nm = obj(d, d.heap[nm.oid][('f', None, 0)])
+                        bs = [b.t for b in model(d, nm)]
+                        okk, m = (False, ex.valid(d, z3.BoolVal(False))[1]) if len(bs) != n else ex.valid(d, z3.And(*[x == y for x, y in zip(bs, tail)]))
+                        if not okk: why = f'the name has {len(bs)} bytes' + (' that differ from the text given' if len(bs) == n else f' for {n} bytes of text')
+                    except Exception as e:
+                        why = f'the name cannot be read back ({type(e).__name__})'; hav = hav or 'name construction'; m = ex.valid(d, z3.BoolVal(False))[1]
+            if why is None: fam.discharged += 1
+            elif not any(c.role == 'name' for c in fam.candidates):
+                tv = bytes(m.eval(t, True).as_long() for t in tail) if m is not None else b'\xc3\xa9'
+                fam.candidates.append(Candidate(fam.name, 'name', f'--select `.a=` + {tv!r}: {why}', {'tail_hex': tv.hex()}, unmodelled=hav))
+        run.absorb(ex)
+    if fam.discharged: fam.add_sample({'text': '.a=<any code point>', 'verdict': 'the name is the text after `=`'})
+    from .cli import run_jawk, show
+    for c in fam.candidates:
+        c.status = 'unit'
+        for name in (bytes.fromhex(c.model['tail_hex']).decode('utf-8', errors='ignore') or 'é', 'Größe', '中', 'naïve'):
+            r = run_jawk(ctx, ['-o', 'csv', '--select', '.a=' + name], b'{"a":1}')
+            first = show(r['stdout']).split('\n')[0]
+            if r['rc'] != 0 or first != '"' + name.replace('"', '""') + '"':
+                c.status = 'reproduced'; c.unmodelled = None; c.replay = {'argv': ['-o', 'csv', '--select', '.a=' + name], 'expected_header': '"' + name + '"', 'actual_header': first, 'rc': r['rc']}; break
